@@ -15,7 +15,12 @@ LAYOUTS = {
     "str_in_dict": ["cfg = {", "    'password': 'x',", "    'dir': '/tmp/x',", "}"],
     "pickle_two": ["data = pickle.loads(", "    blob)"],
     "except_pass": ["try:", "    pass", "except Exception:", "    pass"],
+    "nested_later_line": ["subprocess.Popen('ls',", "                 shell=True, env=pickle.loads(blob))"],
+    "nested_three": ["subprocess.call(cmd,", "                input=pickle.loads(b),", "                shell=True)"],
 }
+# the test IDs each layout triggers (for targeted two-comment enumeration)
+LAYOUT_IDS = {"one_line": ["B101", "B602", "B607"], "four_lines": ["B101", "B602", "B607"], "nested_later_line": ["B602", "B607", "B301"],
+              "nested_three": ["B602", "B301"], "password_kw": ["B106", "B104"], "call_stmt": ["B602", "B607"], "str_in_dict": ["B105", "B108"]}
 PRELUDE = ["import subprocess", "import pickle"]
 
 TESTS_TEXTS = [
@@ -94,6 +99,22 @@ def build_cases(res, rng, thorough):
             else:
                 cm[ln] = "# nosec" + rng.choice(TESTS_TEXTS)
         cases.append((lay, cm, "random"))
+    # structured: two comments on two different lines of the statement — (ordinary | bare | specific) x (bare | specific)
+    first_kinds = ["# ordinary remark", "# noqa: E501", "# nosec", None]
+    for lay, ids in LAYOUT_IDS.items():
+        n = len(LAYOUTS[lay])
+        base = len(PRELUDE)
+        for i in range(n):
+            for j in range(n):
+                if i == j:
+                    continue
+                for a in first_kinds + ["# nosec " + x for x in ids]:
+                    for b in ["# nosec"] + ["# nosec " + x for x in ids]:
+                        if a is None:
+                            continue
+                        if not thorough and rng.random() > 0.35:
+                            continue
+                        cases.append((lay, {base + i: a, base + j: b}, "two-comments"))
     # nosec text inside a string literal is inert
     cases.append(("one_line", {-1: 's = "# nosec"'}, "string-literal"))
     cases.append(("four_lines", {-1: "s = '''# nosec B101'''"}, "string-literal"))
